@@ -241,7 +241,7 @@ func Harness_C17_contended() {
 }
 
 // Harness_C17_writer: a real single writer with auto-compaction on: after every one of N identical transactions the stack is at most 2*log2(N) tables deep.
-// bounds: N = 64 transactions (thorough 1024) of 1, 2 or 5 fresh refs each through Stack.Add on the model file system, BlockSize 256 or 4096(default) x Unaligned; real table sizes (no size model); one payload byte symbolic
+// bounds: N = 64 transactions (thorough 1024) of 1, 2 or 5 fresh refs each through Stack.Add on the model file system, BlockSize 256 or 4096(default) x Unaligned; real table sizes (no size model); one payload byte symbolic; after every Add also the rewrite bound: entries rewritten by compactions so far (counted by the harness from the headers of the tables that appear) <= n * ceil(log2(n+1)) * entries per transaction
 // covers: done
 func Harness_C17_writer() {
 	cfg := Config{BlockSize: []uint32{256, 0}[VerifChoose(2)], Unaligned: VerifChoose(2) == 1}
@@ -255,6 +255,8 @@ func Harness_C17_writer() {
 	payload := VerifU8()
 	VerifMaxSteps(4000000000)
 	maxN := 64 + 960*VerifTier()
+	seen := map[string]bool{}
+	var rewritten uint64
 	for n := 1; n <= maxN; n++ {
 		err := st.Add(func(w *Writer) error {
 			ui := st.NextUpdateIndex()
@@ -277,6 +279,18 @@ func Harness_C17_writer() {
 			l := specBitLen(uint64(n)) - 1
 			VerifAssert(len(st.stack) <= 2*l, "depth-bound")
 		}
+		// entries rewritten so far: every table that is new and spans more than the transaction just added is a
+		// compaction result, and it rewrote cnt entries per update index it covers (counted by the harness from
+		// the table headers, not taken from the library's statistics)
+		for _, rd := range st.stack {
+			if !seen[rd.Name()] {
+				seen[rd.Name()] = true
+				if span := rd.MaxUpdateIndex() - rd.MinUpdateIndex() + 1; span > 1 {
+					rewritten += span * uint64(cnt)
+				}
+			}
+		}
+		VerifAssert(rewritten <= uint64(n)*uint64(specBitLen(uint64(n)))*uint64(cnt), "rewrite-bound")
 	}
 	VerifCover("done")
 }
